@@ -101,16 +101,55 @@ def check(chk):
                     if why:
                         return '%s = %s' % (x.id, why)
         return None
-    arm = [n for n in body_walk(uft) if isinstance(n, ast.If) and 'utctimetuple' in src(n.test)]
-    if len(arm) != 1:
-        raise AnalysisError('uuid_from_time: datetime arm not found')
-    micro = [st for st in arm[0].body if isinstance(st, ast.Assign) and src(st.targets[0]) == 'microseconds']
-    if len(micro) != 1:
-        raise AnalysisError('uuid_from_time: microseconds of the datetime arm not found')
-    why = tainted(uft, micro[0].value)
-    chk.judge(why is None, 'C34.exact', micro[0], 'uuid_from_time(datetime): %s' % src(micro[0]),
+    # which locals carry a value that went through float arithmetic, per path; the microsecond count must not be one of them where the argument is (or may be) a datetime
+    from ..sem import flow_of as _flow_of
+    from ..cfg import Flow as _Flow34
+    gu, _fu = _flow_of(uft)
+
+    def _direct(e):
+        for x in ast.walk(e):
+            if isinstance(x, ast.Constant) and isinstance(x.value, float):
+                return 'float literal %r' % x.value
+            if isinstance(x, ast.BinOp) and isinstance(x.op, ast.Div):
+                return 'true division %s' % src(x)[:40]
+            if isinstance(x, ast.Call) and isinstance(x.func, ast.Name) and x.func.id == 'float':
+                return 'float()'
+            if isinstance(x, ast.Call) and isinstance(x.func, ast.Attribute) and x.func.attr in ('total_seconds', 'timestamp'):
+                return '%s() is a float' % x.func.attr
+        return None
+
+    def _step_t(n, c):
+        if n.kind == 'stmt' and isinstance(n.ast, (ast.Assign, ast.AugAssign)):
+            tg = n.ast.targets[0] if isinstance(n.ast, ast.Assign) else n.ast.target
+            if isinstance(tg, ast.Name):
+                d = dict(c)
+                why = _direct(n.ast.value)
+                if why is None:
+                    for x in ast.walk(n.ast.value):
+                        if isinstance(x, ast.Name) and x.id in d:
+                            why = '%s (%s)' % (x.id, d[x.id])
+                            break
+                if why is None and isinstance(n.ast, ast.AugAssign) and tg.id in d:
+                    why = d[tg.id]
+                if why is not None:
+                    d[tg.id] = why[:80]
+                else:
+                    d.pop(tg.id, None)
+                return tuple(sorted(d.items()))
+        return c
+    ft = _Flow34(gu, (), _step_t)
+    uses = [n for n in gu.stmt_nodes() if n.kind == 'stmt' and isinstance(n.ast, ast.Assign) and src(n.ast.targets[0]) == 'intervals']
+    if len(uses) != 1:
+        raise AnalysisError('uuid_from_time: intervals = ... not found')
+    whyf = None
+    for fa, c in ft.at(uses[0]):
+        if fa.knows("hasattr(time_arg, 'utctimetuple')") is not False:
+            for x in ast.walk(uses[0].ast.value):
+                if isinstance(x, ast.Name) and x.id in dict(c):
+                    whyf = whyf or '%s = %s' % (x.id, dict(c)[x.id])
+    chk.judge(whyf is None, 'C34.exact', uses[0].ast, 'uuid_from_time(datetime): the microsecond count reaches `%s` without float arithmetic' % src(uses[0].ast)[:60],
               'the microsecond count of a datetime is a float (%s): multiplied by 10 it exceeds 2**53 for every instant after 1998 and is rounded to a multiple of 2, 4, 8 ... '
-              '100 ns units, and about 2%% of the instants between 2038 and 2100 decode back one microsecond off' % why)
+              '100 ns units, and about 2%% of the instants between 2038 and 2100 decode back one microsecond off' % whyf)
     dfu = m.func('datetime_from_uuid1')
     for r in [n for n in body_walk(dfu) if isinstance(n, ast.Return) and n.value is not None]:
         why = tainted(dfu, r.value)
